@@ -196,23 +196,29 @@ def run(case):
     expect_refusal = all_int
     # ---- build the two forms of the points
     def values_form():
+        # spellings: Quantities (own or other convertible units), bare floats with units=[...], or - "mixed" -
+        # a units list in the WCS's own units while some points are given as Quantities in other units
         pts, ulist = [], None
         if case["floats"]:
             ulist = list(units)
+        mixed = case["floats"] and case["alt_units"]
         for world, isnone in zip(val_points, none_world):
             pt = []
+            as_quantity = (not case["floats"]) or (mixed and len(pts) % 2 == 1)
             for i, v in enumerate(world):
                 if isnone[i]:
                     pt.append(None)
                     continue
                 un = units[i]
-                if case["alt_units"] and un in ALT_UNITS:
+                if case["alt_units"] and un in ALT_UNITS and as_quantity:
                     alt = ALT_UNITS[un][(i + len(pts)) % len(ALT_UNITS[un])]
                     q = (v * u.Unit(un)).to(alt)
                 else:
                     q = v * u.Unit(un)
-                pt.append(float(q.to_value(un)) if case["floats"] else q)
+                pt.append(q if as_quantity else float(q.to_value(un)))
             pts.append(pt)
+        if mixed:
+            tags.append("mixed-unit-spellings")
         return pts, ulist
 
     def objects_form():
